@@ -32,9 +32,13 @@ Rec == ndJsonDeserialize(IOEnv.TRACE)
 
 Idx == 1..Len(Rec)
 
-AllRejected(e) == \A j \in DOMAIN e.outs : e.outs[j].outcome = "rejected"
-AllAccepted(e) == \A j \in DOMAIN e.outs : e.outs[j].outcome = "accepted"
-Faithful(e)    == \A j \in DOMAIN e.outs : e.outs[j].faithful
+\* The "alias" rendering (legacy key spelling) may be refused by the loader as a whole (the pinned loader does:
+\* "duplicate field"); a refusal is never a violation and says nothing about the row, so the statistics below skip it
+\* (the verdict Ok looks at every faithful outcome, the alias rendering included).
+Std(e)         == { j \in DOMAIN e.outs : ~(e.outs[j].fmt = "alias" /\ e.outs[j].outcome = "rejected") }
+AllRejected(e) == \A j \in Std(e) : e.outs[j].outcome = "rejected"
+AllAccepted(e) == \A j \in Std(e) : e.outs[j].outcome = "accepted"
+Faithful(e)    == \A j \in Std(e) : e.outs[j].faithful
 
 Derived(e)     == "derived" \in DOMAIN e
 
